@@ -486,8 +486,12 @@ def opClass (g : Graph) (op : OpDef) : Option Nat :=
   match op.kind with
   | "CONV_2D" | "DEPTHWISE_CONV_2D" | "FULLY_CONNECTED" | "ADD" | "SUB" | "MUL" | "QUANTIZE" | "LEAKY_RELU" | "TRANSPOSE_CONV"
   | "HARD_SWISH" => some 0
-  | "MAX_POOL_2D" | "RELU" | "RELU6" | "RELU_N1_TO_1" | "MINIMUM" | "MAXIMUM" | "RESHAPE" | "SQUEEZE" | "EXPAND_DIMS"
-  | "CONCATENATION" | "SPLIT" | "STRIDED_SLICE" | "PAD" | "TRANSPOSE" => some 2
+  | "MAX_POOL_2D" | "RELU" | "RELU6" | "RELU_N1_TO_1" | "MINIMUM" | "MAXIMUM" | "RESHAPE" | "SQUEEZE" | "EXPAND_DIMS" => some 2
+  | "CONCATENATION" =>
+    -- inputs quantised like the output are copied; the others are requantised (approximated class)
+    let o := outId op 0
+    some (if op.ins.all (fun i => i < 0 ∨ (g.scales i.toNat == g.scales o ∧ g.zp i.toNat == g.zp o)) then 2 else 1)
+  | "SPLIT" | "STRIDED_SLICE" | "PAD" | "TRANSPOSE" => some 2
   | "ARG_MAX" => some 0
   | "LOGISTIC" | "TANH" | "RESIZE_BILINEAR" | "RESIZE_NEAREST_NEIGHBOR" | "MEAN" | "SOFTMAX" | "EXP" => some 1
   | "AVERAGE_POOL_2D" =>
@@ -708,7 +712,19 @@ def evalOp (g : Graph) (env : Env) (op : OpDef) : Except String (List Tensor) :=
     if prod os ≠ a.data.size then throw s!"{op.kind}: element count"
     return [{ shape := os, data := a.data }]
   | "CONCATENATION" =>
-    let ts ← (List.range op.ins.length).mapM fun k => getIn env op k
+    -- an input whose quantisation differs from the output's is requantised: round((x - zp_i) * s_i / s_o) + zp_o
+    -- (`ConcatenationWithScaling` of the uint8 kernel; the signed kernels demand equal parameters)
+    let o := outId op 0
+    let dt := g.dtype o
+    let ts ← (List.range op.ins.length).mapM fun k => do
+      let t ← getIn env op k
+      let i := inId op k
+      if g.scales i == g.scales o ∧ g.zp i == g.zp o then pure t else
+      match g.scales i, g.scales o with
+      | [si], [so] =>
+        let ratio := f32ToFloat si / f32ToFloat so
+        pure (unary t fun v => clamp ((Float.round (Float.ofInt (v - g.zp i) * ratio)).toInt64.toInt + g.zp o) dt.lo dt.hi)
+      | _, _ => throw "unsupported:CONCATENATION:quantisation"
     return [← concat ts (pN op 0 0)]
   | "SPLIT" =>
     -- inputs: axis tensor, value; params: axis, count
@@ -721,14 +737,23 @@ def evalOp (g : Graph) (env : Env) (op : OpDef) : Except String (List Tensor) :=
     (List.range num).mapM fun k =>
       slice a ((List.replicate a.shape.length 0).set axis (k * part)) (a.shape.set axis part)
   | "STRIDED_SLICE" =>
-    -- params: group 0 = begin, group 1 = end (already resolved, stride 1)
+    -- params: group 0 = begin, group 1 = end (already resolved), group 2 = strides (absent = 1)
     let a ← getIn env op 0
     let b := (grp op 0).map Int.toNat
     let e := (grp op 1).map Int.toNat
-    let sl ← slice a b ((e.zip b).map fun (x, y) => x - y)
+    let st := if (grp op 2).isEmpty then b.map (fun _ => 1) else (grp op 2).map Int.toNat
+    let r := a.shape.length
+    if b.length ≠ r ∨ e.length ≠ r ∨ st.length ≠ r ∨ st.any (· = 0) then throw "strided_slice: rank"
+    if ((b.zip e).zip a.shape).any (fun ((x, y), d) => y ≤ x ∨ y > d) then throw "strided_slice: range"
+    let size := ((b.zip e).zip st).map fun ((x, y), s) => (y - x + s - 1) / s
+    let n := prod size
+    let mut out : Array Int := Array.mkEmpty n
+    for i in [0:n] do
+      let co := unflatten size i
+      out := out.push (a.data.getD (flatten a.shape (((co.zip b).zip st).map fun ((c, x), s) => x + c * s)) 0)
     let os := g.shape (outId op 0)
-    if prod os ≠ sl.data.size then throw "strided_slice: element count"
-    return [{ shape := os, data := sl.data }]
+    if prod os ≠ out.size then throw "strided_slice: element count"
+    return [{ shape := os, data := out }]
   | "PAD" =>
     let a ← getIn env op 0
     let ps := (grp op 0).map Int.toNat
